@@ -220,8 +220,10 @@ def check_case(case):
             out["violations"].append({"key": f"C01:{rule}:no-ValueError-on-boundary-tie", "what": f"{rule} returned {e.get_elected()} despite an unbroken boundary tie on {desc}", "input": desc})
     if rule == "DominatingSets":
         probs = oracle.audit_outcome(e, cands, None, exact=False)
-        if len(e.get_elected()) != 1:
-            probs.append(f"DominatingSets elected {e.get_elected()} (not one tier)")
+        from .C06 import margins, smith_tiers
+        top = smith_tiers(cands, margins(cands, oracle.W_of(bl)))[0]
+        if [set(s) for s in e.get_elected()] != [top]:
+            probs.append(f"final: DominatingSets elected {e.get_elected()}, the top dominating tier is {top}")
     else:
         probs = oracle.audit_outcome(e, cands, seats)
     for p in probs[:2]:
